@@ -657,6 +657,15 @@ func (p *printer) paramExp(w *ast.ParamExp) {
 }
 
 func (p *printer) cmdSubst(w *ast.CmdSubst) {
+	// a newline inside the substitution does not begin the
+	// here-documents of the enclosing command
+	stack := p.stack
+	p.stack = nil
+	p.push()
+	defer func() {
+		p.heredoc()
+		p.stack = stack
+	}()
 	if w.Dollar {
 		p.w.WriteString("$(")
 	} else {
